@@ -28,8 +28,9 @@ type Site struct {
 	RichBug entity.Id
 }
 
-// NewSite creates a repository on tmpfs with 5 identities, 6 bugs (one with a long history) and
-// 5 labels, registers it in a MultiRepoCache and builds the real handler.
+// NewSite creates a repository on tmpfs with 5 identities, 6 bugs (one with a long history), 3 more
+// bugs pulled from a peer (creation times tied with local ones) and 7 labels (two differ from another
+// by letter case only), registers it in a MultiRepoCache and builds the real handler.
 func NewSite(dir string, seed uint64) (*Site, error) {
 	world.IsolateEnv(dir)
 	vctl.Activate(seed, 0)
@@ -63,8 +64,10 @@ func NewSite(dir string, seed uint64) (*Site, error) {
 	t := int64(1600000000)
 	tick := func() int64 { t += 10; return t }
 	au := func(i int) identity.Interface { return ids[i%len(ids)].Identity }
+	var createdAt []int64
 	for b := 0; b < 6; b++ {
-		bc, _, err := rc.Bugs().NewRaw(au(b), tick(), fmt.Sprintf("bug %d", b), fmt.Sprintf("body %d", b), nil, nil)
+		createdAt = append(createdAt, tick())
+		bc, _, err := rc.Bugs().NewRaw(au(b), createdAt[b], fmt.Sprintf("bug %d", b), fmt.Sprintf("body %d", b), nil, nil)
 		if err != nil {
 			return nil, err
 		}
@@ -97,7 +100,12 @@ func NewSite(dir string, seed uint64) (*Site, error) {
 				return nil, err
 			}
 		} else {
-			if _, _, err := bc.ChangeLabelsRaw(au(b), tick(), []string{string(rune('a' + b%5)), string(rune('a' + (b+2)%5))}, nil, nil); err != nil {
+			// bugs 2 and 3 also carry a label that differs from another one by letter case only
+			labels := []string{string(rune('a' + b%5)), string(rune('a' + (b+2)%5))}
+			if b == 2 || b == 3 {
+				labels = append(labels, string(rune('A'+b%5)))
+			}
+			if _, _, err := bc.ChangeLabelsRaw(au(b), tick(), labels, nil, nil); err != nil {
 				return nil, err
 			}
 			if b%2 == 0 {
@@ -110,8 +118,62 @@ func NewSite(dir string, seed uint64) (*Site, error) {
 			return nil, err
 		}
 	}
+	if err := s.addPeerBugs(dir, createdAt); err != nil {
+		return nil, fmt.Errorf("peer population: %w", err)
+	}
 	s.handler = graphql.NewHandler(mrc, nil)
 	return s, nil
+}
+
+// addPeerBugs gives the site three bugs created concurrently on another replica: the peer is a fresh
+// repository, so its bugs get the same logical creation times as the site's first three bugs, and they
+// are created in the same second. Sorting by creation (the default order of allBugs) then has ties
+// between distinct bugs. The peer's bugs arrive the ordinary way: fetch and merge.
+func (s *Site) addPeerBugs(dir string, createdAt []int64) error {
+	vctl.SetActor("c20peer")
+	defer vctl.SetActor("c20")
+	peerDir := filepath.Join(dir, "peer")
+	peer, err := repository.InitGoGitRepo(peerDir, world.Namespace)
+	if err != nil {
+		return err
+	}
+	prc, err := cache.NewRepoCacheNoEvents(peer)
+	if err != nil {
+		return err
+	}
+	pu, err := prc.Identities().New("peer user", "peer@example.org")
+	if err != nil {
+		return err
+	}
+	if err := pu.CommitAsNeeded(); err != nil {
+		return err
+	}
+	for j := 0; j < 3; j++ {
+		if _, _, err := prc.Bugs().NewRaw(pu.Identity, createdAt[j], fmt.Sprintf("peer bug %d", j), "made elsewhere", nil, nil); err != nil {
+			return err
+		}
+	}
+	if err := prc.Close(); err != nil {
+		return err
+	}
+	if err := peer.Close(); err != nil {
+		return err
+	}
+	if err := s.repo.AddRemote("peer", world.Scheme+"://"+filepath.Join(peerDir, ".git")); err != nil {
+		return err
+	}
+	if _, err := s.rc.Fetch("peer"); err != nil {
+		return err
+	}
+	for r := range s.rc.MergeAll("peer") {
+		if r.Err != nil {
+			return r.Err
+		}
+		if r.Status == entity.MergeStatusInvalid {
+			return fmt.Errorf("merge of %s: %s", r.Id, r.Reason)
+		}
+	}
+	return nil
 }
 
 func (s *Site) Close() {
